@@ -34,6 +34,9 @@ struct DataRowIteratorTestData<'a> {
     /// List with the same number of entries as `expected_indices`.
     /// Each non-trivial entry is an index into the output vec from the driver.
     output_indices: Vec<OutputEntryIndex<'a>>,
+    /// The signals of the driver's first answer, in the order of that answer.
+    /// Every later answer must list exactly these signals in this order.
+    output_layout: Vec<Signal>,
     prev: Option<Vec<DataEntry>>,
     cache: Vec<DataEntries>,
 }
@@ -265,6 +268,7 @@ impl<'a> DataRowIteratorTestData<'a> {
             .collect::<Vec<_>>();
         if missing.is_empty() {
             self.output_indices = output_indices;
+            self.output_layout = outputs.iter().map(|output| output.signal.clone()).collect();
             Ok(())
         } else {
             Err(IterationError::Runtime(
@@ -273,23 +277,25 @@ impl<'a> DataRowIteratorTestData<'a> {
         }
     }
 
-    fn num_outputs(&self) -> usize {
-        self.output_indices
-            .iter()
-            .filter(|i| matches!(i, OutputEntryIndex::Output(_)))
-            .count()
-    }
-
     fn extract_output_values<E: std::error::Error>(
         &self,
         outputs: Vec<OutputEntry<'_>>,
         ctx: &mut EvalContext,
     ) -> Result<Vec<OutputValue>, IterationError<E>> {
-        let num_outputs = self.num_outputs();
+        let num_outputs = self.output_layout.len();
 
         if outputs.len() != num_outputs {
             return Err(IterationError::Runtime(
                 RuntimeErrorKind::WrongNumberOfOutputs(num_outputs, outputs.len()).into(),
+            ));
+        }
+        if outputs
+            .iter()
+            .zip(&self.output_layout)
+            .any(|(output, first)| output.signal != first)
+        {
+            return Err(IterationError::Runtime(
+                RuntimeErrorKind::WrongOutputOrder.into(),
             ));
         }
 
@@ -329,6 +335,7 @@ impl<'a> DataRowIteratorTestData<'a> {
             input_indices: &test_case.input_indices,
             expected_indices: &test_case.expected_indices,
             output_indices: vec![],
+            output_layout: vec![],
             prev: None,
             cache: vec![],
         }
